@@ -171,9 +171,9 @@ def run_history(job):
     """Sequential history: list of op names; returns one trace event."""
     table0, names, sd = job
     rnd = random.Random(sd)
-    ops = op_pool(rnd)
     set_table0(table0)
     reset_guard()
+    ops = op_pool(rnd)
     obs = GuardObserver(1)
     outcomes = []
     tr = sched.LineTracer(obs)
@@ -192,16 +192,16 @@ def run_faults(job):
     table0, name, sd, stride = job
     rnd = random.Random(sd)
     out = []
-    ops = op_pool(rnd)
     set_table0(table0)
     reset_guard()
+    ops = op_pool(rnd)
     tr = sched.LineTracer()
     tr.run(ops[name])
     total = tr.lines
     for n in range(1, total + 1, stride):
-        ops = op_pool(rnd)
         set_table0(table0)
-        reset_guard()
+        reset_guard()           # harness-side reset BEFORE building operands: a guard left broken by the previous abort must not break the driver
+        ops = op_pool(rnd)
         tr = sched.LineTracer(fault_at=n)
         r = tr.run(ops[name])
         after_abort = table_state()
